@@ -158,6 +158,19 @@ CLAIMED["C09"] = (
     "custom AST dataflow: must-facts per path class, statement-order (typestate) check on the running extent, sign/interval analysis of one helper (static analysis)",
     "DESIGN.md section 5, C09",
 )
+CLAIMED["C12"] = (
+    "Claimed for placement / direction / classification / guard clauses: copy-in is source->buffer, found in the forward "
+    "walk, inserted before the first use that has the cast value among its inputs, once; copy-out is buffer->source, found "
+    "in the reverse walk, inserted after the last use that has it among its outputs (returns never), once; cast chains are "
+    "followed through both cast kinds identically in both places; kernel operands outside L1 get an L1 cast of that very "
+    "operand; only unset function memory spaces become L3 and returns are cast to the function type's space; compile-time "
+    "re-layout only for None -> dense static TSL, bailing on None, never with terminator users, non-cast users of an "
+    "alloc, other references to the global or several uses of the get_global under a subview. Does not decide the byte "
+    "permutation of transform_constant nor write/read/write orders of several users (observations O-8/O-9).",
+    WALKER_NOTE,
+    "custom AST dataflow: dependency templates, must-facts per path class, sibling loop agreement (static analysis)",
+    "DESIGN.md section 5, C12",
+)
 NOT_APPLICABLE = {
     "C02": "address-stream equality is integer arithmetic over runtime strides/bounds; no structural necessary condition carries weight (DESIGN.md section 5, C02)",
 }
